@@ -32,15 +32,8 @@ def run(ctx):
     ]
     ctx.cov["trusted_base"] += ["extract/guards (go/packages + go/types translator)", "harness hnative/witness + drv_native",
                                 "error-text classification of witness rejections ('authentication failed')"]
-    side = os.path.join(ctx.tmpdir, "guards.json")
-    out = ctx.run_extract("guards", ["lean", side], out_lean="Guards.lean", timeout=1800)
-    facts = None
-    if out is not None:
-        try:
-            facts = json.load(open(side))
-        except Exception as e:  # noqa: BLE001
-            ctx.violate("translator:guards-json", "guards translator wrote no JSON side file: %r" % (e,), {"kind": "translator"},
-                        found_input=False)
+    from checks import native_extract
+    facts = native_extract.extract(ctx, "guards", [], "Guards.lean")
     ctx.lean_props()
     if facts:
         ctx.cov["guards"] = {"methods": len(facts["methods"]), "registered": facts["registered"],
